@@ -110,6 +110,16 @@ class Sched:
         self.max_virtual = 4 * 3600 * US
         self.hot_re = None
         self.hot_budget = 0
+        self.stall_prob = 0.0            # a preempted thread may also be held back for a while (virtual time passes while it sits between two lines)
+        self.stall_us = (1000,)
+
+    def preempt_here(self):
+        if self.stall_prob and self.chooser.rng.random() < self.stall_prob:
+            d = self.chooser.rng.choice(self.stall_us)
+            self.emit("stall", us=d)
+            self.block(lambda: False, self.now + d, "stall")
+        else:
+            self.yield_("preempt")
 
     # ---- trace
     def emit(self, kind, **kw):
@@ -428,11 +438,11 @@ def _make_tracer():
                 # targeted preemption inside the functions a check is interested in (e.g. callback registration)
                 s.hot_budget -= 1
                 s.emit("preempt", fn=frame.f_code.co_name, line=frame.f_lineno, hot=True)
-                s.yield_("preempt")
+                s.preempt_here()
             elif event == "line" and s.preempt_budget > 0 and s.chooser.rng.random() < s.preempt_prob:
                 s.preempt_budget -= 1
                 s.emit("preempt", fn=frame.f_code.co_name, line=frame.f_lineno)
-                s.yield_("preempt")
+                s.preempt_here()
         return local
 
     def glob(frame, event, arg):
@@ -770,7 +780,7 @@ class Run:
         self.preempts = 0
 
 
-def run_scenario(scenario, seed=0, prefix=None, mode="random", preempt=0, preempt_prob=0.02, open_hook=None, wall_timeout=120, hot=None, hot_budget=0):
+def run_scenario(scenario, seed=0, prefix=None, mode="random", preempt=0, preempt_prob=0.02, open_hook=None, wall_timeout=120, hot=None, hot_budget=0, stall=None):
     """scenario(ctxobj) is called in managed thread 'U0'; ctxobj offers .spawn(name, fn), .sleep(s), .emit(...), .now.
     `open_hook(url) -> VSerial or raises` decides what serial_for_url returns."""
     global S
@@ -786,6 +796,9 @@ def run_scenario(scenario, seed=0, prefix=None, mode="random", preempt=0, preemp
         import re as _re
         s.hot_re = _re.compile(hot)
         s.hot_budget = hot_budget
+    if stall:
+        s.stall_prob = stall.get("prob", 0.5)
+        s.stall_us = tuple(stall.get("us", (1000, 30000, 120000)))
     S = s
 
     def serial_for_url(url, *a, **kw):
